@@ -119,7 +119,7 @@ fn c05_cpid_new() {
     reach!();
 }
 
-//@ob fn="<CommandPID<G,E> as Updatable>::update" at=src/streams/control.rs:175 clause="freshness from an arbitrary state not following a getter (cached error included): update returns Err(e) iff the input returned Err(e); get() afterwards is Err(e) iff this update's input was Err(e); absent => Ok(None); present d => stored sample stamped d.time and any present get() stamped d.time; command, k-values, settable data unchanged; input read once (A7)"
+//@ob fn="<CommandPID<G,E> as Updatable>::update" at=src/streams/control.rs:175 also=rel_check clause="freshness from an arbitrary state not following a getter (cached error included): update returns Err(e) iff the input returned Err(e); get() afterwards is Err(e) iff this update's input was Err(e); absent => Ok(None); present d => stored sample stamped d.time and any present get() stamped d.time; command, k-values, settable data unchanged; input read once (A7)"
 #[kani::proof]
 fn c05_cpid_fresh() {
     let ev = any_output::<State>();
@@ -147,7 +147,7 @@ fn c05_cpid_fresh() {
     reach!();
 }
 
-//@ob fn="<CommandPID<G,E> as Updatable>::update" at=src/streams/control.rs:189 clause="structure of a present sample: after an error or a reset the sample starts afresh (one stored sample, no integrals); otherwise the number of stored integration levels grows by one up to three; get() is present iff enough levels exist for the command's derivative (position: 1, velocity: 2, acceleration: 3) (A7)"
+//@ob fn="<CommandPID<G,E> as Updatable>::update" at=src/streams/control.rs:189 also=rel_check clause="structure of a present sample: after an error or a reset the sample starts afresh (one stored sample, no integrals); otherwise the number of stored integration levels grows by one up to three; get() is present iff enough levels exist for the command's derivative (position: 1, velocity: 2, acceleration: 3) (A7)"
 #[kani::proof]
 fn c05_cpid_present_structure() {
     let d: Datum<State> = kani::any();
